@@ -1,5 +1,5 @@
 (* Check/C14Check.v -- correspondence and oracle for C14 (dejitter, morph). *)
-From PraatIO Require Export Check.Common Tier.TierOps.
+From PraatIO Require Export Check.Common Tier.TierOps Textgrid.TgModel.
 From PraatIO Require Import Tier.CtorProofs Tier.AdjustProofs.
 
 Inductive C14case :=
@@ -7,7 +7,9 @@ Inductive C14case :=
 | DejP (t : ptier) (refs : list Z) (d : Z) (out : res ptier)
 | TimestampsI (t : itier) (ts : list Z)
 | TimestampsP (t : ptier) (ts : list Z)
-| Morph (t g : itier) (keep : option (list text)) (out : res itier).
+| Morph (t g : itier) (keep : option (list text)) (out : res itier)
+(* praatio_scripts.alignBoundariesAcrossTiers: the textgrid it hands back *)
+| TgAlignC (g : tg) (n : text) (d : Z) (out : res tg).
 
 Definition zlist_eqb := list_eqb Z.eqb.
 
@@ -18,6 +20,7 @@ Definition C14corr (c : C14case) : bool :=
   | TimestampsI t ts => zlist_eqb (timestamps_i t) ts
   | TimestampsP t ts => zlist_eqb (timestamps_p t) ts
   | Morph t g keep out => res_eqb itier_eqb (morph_i t g (label_filter keep)) out
+  | TgAlignC g n d out => res_eqb tg_eqb (tg_align g n d) out
   end.
 
 (* specification of one adjusted time, written from the property text: the
@@ -99,6 +102,22 @@ Definition C14oracle (c : C14case) : bool :=
       sorted_strictb ts && forallb (fun x => existsb (Z.eqb x) ts) (map ptime (pents t))
       && forallb (fun x => existsb (Z.eqb x) (map ptime (pents t))) ts
   | Morph t g keep out => morph_oracle t g keep out
+  | TgAlignC g n d out =>
+      (* same tiers under the same names in the same order; the reference tier untouched, every other
+         tier that tier's own dejitter against the reference *)
+      match out, find_tier n (tiers g) with
+      | Ok g', Some ref =>
+          (fix go (l l' : list tier) : bool :=
+             match l, l' with
+             | [], [] => true
+             | t :: r, t' :: r' =>
+                 (if text_eqb (tname t) n then tier_eqb t t'
+                  else res_eqb tier_eqb (dejitter_tier t (timestamps_of ref) d) (Ok t')) && go r r'
+             | _, _ => false
+             end) (tiers g) (tiers g')
+      | Ok _, None => false
+      | Err _, _ => true
+      end
   end.
 
 Definition C14hyp (c : C14case) : bool :=
@@ -108,4 +127,5 @@ Definition C14hyp (c : C14case) : bool :=
   | TimestampsI t _ => wf_itierb t
   | TimestampsP t _ => wf_ptierb t
   | Morph t g _ _ => wf_itierb t && wf_itierb g
+  | TgAlignC _ _ _ _ => true
   end.
